@@ -196,12 +196,15 @@ func c07OutagePoller(rec *vcommon.Rec, sc *c07Scenario) {
 		return
 	}
 	defer func() { s.comm.Close(); s.scomm.Close() }()
-	var outage int32
-	var lost int64
+	var outage, recovered int32
+	var lost, afterRecovery int64
 	s.comm.SetScript(func(n int64, q *mdns.Msg) (vFate, int) {
 		if atomic.LoadInt32(&outage) != 0 {
 			atomic.AddInt64(&lost, 1)
 			return vQueryLost, 0
+		}
+		if atomic.LoadInt32(&recovered) != 0 {
+			atomic.AddInt64(&afterRecovery, 1)
 		}
 		return vDelivered, 0
 	})
@@ -250,8 +253,24 @@ func c07OutagePoller(rec *vcommon.Rec, sc *c07Scenario) {
 	}
 	lostN := atomic.LoadInt64(&lost)
 	closedDuringOutage := s.client.Closed()
-	// 4. the path recovers; the client's poller (or, failing that, 200 polls by the harness) must deliver the rest
+	// 4. the path recovers. First nobody but the client's own poll loop talks: it is the only thing in the client that
+	//    sends a fragment again once the Write that queued it has given up. Four of its exchanges get through (it sleeps
+	//    between them; the wait is workload, the verdict is the count) - the accepted fragment must have arrived by then.
+	atomic.StoreInt32(&recovered, 1)
 	atomic.StoreInt32(&outage, 0)
+	if !closedDuringOutage {
+		dl := time.Now().Add(150 * time.Second)
+		for atomic.LoadInt64(&afterRecovery) < 4 && atomic.LoadInt64(&read) < accepted && time.Now().Before(dl) && !s.client.Closed() {
+			time.Sleep(50 * time.Millisecond)
+		}
+		if got := atomic.LoadInt64(&afterRecovery); got >= 4 && atomic.LoadInt64(&read) < accepted {
+			rec.Case(sc.Name, true)
+			rec.Violation("full:outage-poller:accepted-bytes-not-sent-again-by-the-client's-own-poll-loop", sc, map[string]interface{}{"accepted": accepted,
+				"read_by_peer": atomic.LoadInt64(&read), "lost_exchanges": lostN, "poll_exchanges_delivered_after_recovery": got, "write_error_during_outage": fmt.Sprint(werr)})
+			return
+		}
+		rec.Stat("outage_poller_fragments_delivered_by_the_clients_own_poll_loop", 1)
+	}
 	for i := 0; i < 200 && atomic.LoadInt64(&read) < accepted; i++ {
 		s.client.SendAndReceive(s.client.out.NextChunk())
 		time.Sleep(10 * time.Millisecond)
